@@ -270,4 +270,6 @@ PROPS.update({
     },
 })
 
+PROPS["C06fast"] = dict(PROPS["C06"], quick=["U-PK", "U-SKF"])
+
 HOOK_COMMITS = ["f2e89fa"]
